@@ -43,7 +43,8 @@ def run(ctx):
             "layer.Verify / layer.SkipVerify calls reaching one layer object are serialised (layer.r / layer.verified "
             "are not guarded by a lock)",
             "the chunk cache returns what was committed under a key (C11)",
-            "theorems about returned/cached BYTES are *_partial: they need FaithfulRun (clone-based prefetches, "
-            "Cache(WithReader) = layer.backgroundFetch, compare with the TOC of the layer object); false for the "
-            "memory metadata store whose Clone re-parses the TOC unverified (sig clone-prefetch-unverified-toc)",
+            "byte-level theorems conclude Pinned H parse D (bytes hash to a chunk digest recorded by SOME TOC hashing "
+            "to D): full strength, no collision assumption; the form 'digest recorded in the TOC of this layer object' "
+            "(reads_verified_same_toc) additionally needs: TOC bytes with the layer's TOC digest record the same chunk "
+            "digests (SHA-256 collision-freeness on TOCs; only the memory store's Clone in Cache(WithReader) needs it)",
         ])
